@@ -1879,6 +1879,37 @@ int32 parseServerHello(ssl_t *ssl, int32 hsLen, unsigned char **cp,
 
 /******************************************************************************/
 
+# if defined(USE_DHE_CIPHER_SUITE) && defined(USE_ECC_CIPHER_SUITE)
+/*
+    Is this named curve one of those we listed in the supported_groups
+    (elliptic_curves) extension of our ClientHello? A TLS 1.3 capable
+    client writes the list from ssl->tls13SupportedGroups, the others
+    from the per-session ecFlags (all compiled-in curves by default).
+ */
+static psBool_t clientOfferedEcdheCurve(ssl_t *ssl, uint16_t curveId)
+{
+    uint32_t ecFlags = ssl->ecInfo.ecFlags;
+
+#  ifdef USE_TLS_1_3
+    if (SUPP_VER(ssl, v_tls_1_3_any))
+    {
+        return tls13WeSupportGroup(ssl, curveId);
+    }
+#  endif
+#  ifdef USE_SEC_CONFIG
+    if (ssl->ecFlagsOverride != 0)
+    {
+        ecFlags = ssl->ecFlagsOverride;
+    }
+#  endif
+    if (psTestUserEcID(curveId, ecFlags) != PS_SUCCESS)
+    {
+        return PS_FALSE;
+    }
+    return PS_TRUE;
+}
+# endif
+
 int32 parseServerKeyExchange(ssl_t *ssl,
     unsigned char hsMsgHash[SHA512_HASH_SIZE],
     unsigned char **cp, unsigned char *end)
@@ -1981,6 +2012,14 @@ int32 parseServerKeyExchange(ssl_t *ssl,
                 ssl->err = SSL_ALERT_ILLEGAL_PARAMETER;
                 psTraceErrr("Unsupported ECDHE group in SKE\n");
                 psTraceIntInfo("Group ID: %d\n", i);
+            }
+            /* The server must choose among the curves we offered; another
+               one has not been enabled for this session. */
+            if (!clientOfferedEcdheCurve(ssl, i))
+            {
+                ssl->err = SSL_ALERT_ILLEGAL_PARAMETER;
+                psTraceIntInfo("Error: SKE curve %d was not offered\n", i);
+                return MATRIXSSL_ERROR;
             }
             ssl->sec.peerCurveId = i;
 
